@@ -285,4 +285,74 @@ theorem readRecord_prefix (lim : Nat) (r : Rec) (hw : WellFormed lim r) (p q : B
   · -- headerLine = p ++ a'
     exact inside a' h1
 
+theorem scanNl_mono {bs h rest : Bytes} (x : Bytes) (hs : scanNl bs = some (h, rest)) :
+    scanNl (bs ++ x) = some (h, rest ++ x) := by
+  induction bs generalizing h rest with
+  | nil => simp [scanNl] at hs
+  | cons b bs ih =>
+    simp only [scanNl, List.cons_append] at hs ⊢
+    split at hs
+    · simp only [Option.some.injEq, Prod.mk.injEq] at hs
+      rename_i hb
+      simp [hb, hs.1.symm, hs.2.symm]
+    · rename_i hb
+      cases hsc : scanNl bs with
+      | none => simp [hsc] at hs
+      | some p =>
+        obtain ⟨h0, r0⟩ := p
+        simp only [hsc, Option.some.injEq, Prod.mk.injEq] at hs
+        simp [hb, ih hsc, hs.1.symm, hs.2.symm]
+
+/-- Once a record can be read from the bytes received so far, the same record is read from any
+    extension of them, and exactly the extension is appended to what is left: a reader that waits
+    while the read is incomplete returns the same records whatever the chunk boundaries are. -/
+theorem readRecord_mono (lim : Nat) {bs rest : Bytes} {r : Rec} (x : Bytes)
+    (h : readRecord lim bs = .ok r rest) : readRecord lim (bs ++ x) = .ok r (rest ++ x) := by
+  unfold readRecord at h ⊢
+  split at h
+  · simp at h
+  · rename_i hne
+    have hne' : ¬ (bs ++ x).isEmpty = true := by
+      cases bs with
+      | nil => simp at hne
+      | cons b bs => simp
+    simp only [hne']
+    cases hsc : scanNl bs with
+    | none =>
+      rw [hsc] at h
+      simp only at h
+      split at h <;> simp at h
+    | some p =>
+      obtain ⟨hd, r0⟩ := p
+      rw [hsc] at h
+      rw [scanNl_mono x hsc]
+      simp only at h ⊢
+      split at h
+      · simp at h
+      · rename_i hlim
+        simp only [hlim, if_false]
+        split at h
+        · simp at h
+        · rename_i hany
+          simp only [hany]
+          split at h
+          · rename_i rid nb e hsplit
+            cases hn : parseDec nb with
+            | none => simp [hn] at h
+            | some n =>
+              simp only [hn] at h
+              by_cases hlen : r0.length < n
+              · simp [hlen] at h
+              · simp only [hlen, if_false] at h
+                cases henc : parseEnc e with
+                | none => simp [henc] at h
+                | some enc =>
+                  simp only [henc, RR.ok.injEq] at h
+                  have hle : n ≤ r0.length := by omega
+                  have hlen' : ¬ (r0 ++ x).length < n := by simp; omega
+                  simp only [Bool.false_eq_true, if_false, hlen', RR.ok.injEq,
+                    List.take_append_of_le_length hle, List.drop_append_of_le_length hle]
+                  exact ⟨h.1, by rw [h.2]⟩
+          · simp at h
+
 end Frame
